@@ -920,3 +920,31 @@ package keeper
 //@ ensures [epoch-boundary-queues-then-sends] (stretch) result1 == nil && height % e == 0 ==> $QueueVSCPackets.called && $QueueVSCPackets.ret == nil && $SendVSCPackets.called
 //@ ensures [mid-epoch-silent] (stretch) height % e != 0 ==> !$QueueVSCPackets.called && !$SendVSCPackets.called
 //@ precall SendVSCPackets [after-queueing] $QueueVSCPackets.called && $QueueVSCPackets.ret == nil
+
+// ---------------------------------------------------------------- C05: staking hooks
+
+//@ func Hooks.AfterValidatorCreated
+//@ requires h.k != nil
+//@ ensures [key-in-use-aborts] $ValidatorConsensusKeyInUse.called && $ValidatorConsensusKeyInUse.valAddr == valAddr && !$ValidatorConsensusKeyInUse.ret
+//@ ensures [no-effect] result == nil && S == old(S) && E == old(E) && X == old(X)
+
+//@ func Keeper.GetAllValidatorConsumerPubKeys pure
+//@ ensures [frame] S == old(S) && E == old(E) && X == old(X)
+
+//@ func Hooks.AfterValidatorRemoved
+//@ requires h.k != nil
+//@ let all := old(h.k.GetAllValidatorConsumerPubKeys(goCtx, nil))
+//@ requires [W-keys-present] forall j int :: 0 <= j && j < len(all) ==> all[j].ConsumerKey != nil
+//@ loop 1 invariant [idx] 0 <= _i && _i <= len(all)
+//@ loop 1 invariant [only-deletes] forall key bytes :: S[key] == old(S[key]) || S[key] == bnil
+//@ loop 1 invariant [deps] E == old(E) && X == old(X)
+//@ loop 1 step [others-kept] !sdk.ConsAddress(validatorConsumerPubKey.ProviderAddr).Equals(valConsAddr) ==> S == prev(S)
+//@ loop 1 step [own-assignment-removed] sdk.ConsAddress(validatorConsumerPubKey.ProviderAddr).Equals(valConsAddr) ==> !h.k.GetValidatorConsumerPubKey(goCtx, validatorConsumerPubKey.ChainId, providertypes.NewProviderConsAddress(validatorConsumerPubKey.ProviderAddr)).1 && !h.k.GetValidatorByConsumerAddr(goCtx, validatorConsumerPubKey.ChainId, providertypes.NewConsumerConsAddress(ccvtypes.TMCryptoPublicKeyToConsAddr(*validatorConsumerPubKey.ConsumerKey).0)).1
+//@ loop 1 step [only-those-two] forall key bytes :: key != providertypes.ConsumerValidatorsKey(validatorConsumerPubKey.ChainId, providertypes.NewProviderConsAddress(validatorConsumerPubKey.ProviderAddr)) && key != providertypes.ValidatorsByConsumerAddrKey(validatorConsumerPubKey.ChainId, providertypes.NewConsumerConsAddress(ccvtypes.TMCryptoPublicKeyToConsAddr(*validatorConsumerPubKey.ConsumerKey).0)) ==> S[key] == prev(S[key])
+//@ ensures [never-fails] result == nil
+//@ ensures [no-deps] E == old(E) && X == old(X)
+
+// ---------------------------------------------------------------- C07: conflicting headers
+
+//@ func headersStateTransitionsAreConflicting
+//@ ensures [def] result <==> !(bytes.Equal(h1.ValidatorsHash, h2.ValidatorsHash) && bytes.Equal(h1.NextValidatorsHash, h2.NextValidatorsHash) && bytes.Equal(h1.ConsensusHash, h2.ConsensusHash) && bytes.Equal(h1.AppHash, h2.AppHash) && bytes.Equal(h1.LastResultsHash, h2.LastResultsHash))
